@@ -24,7 +24,7 @@ fn seg(rng: &mut Rng) -> String {
             }
         }
         6 | 7 => format!("{}-{}", rng.pick(&["a", "dev", "x", "foo"]), rng.pick(&["b", "dependencies", "y1", "bar"])),
-        8 => format!("\"{}\"", rng.pick(&["cfg(windows)", "a b", "1.2", "é", "x.y", "", "q-r", "a\\\"b", "tab\\there"])),
+        8 => format!("\"{}\"", rng.pick(&["cfg(windows)", "a b", "1.2", "é", "x.y", "", "q-r", "a\\\"b", "tab\\there", "-x", "--release", "-", "a-", "10.0.0.1"])),
         _ => format!("{}-{}-{}", rng.pick(&["a", "b"]), rng.pick(&["c", "d"]), rng.pick(&["e", "f"])),
     }
 }
@@ -277,8 +277,26 @@ fn emit_sections(rng: &mut Rng, entries: &[(String, N)], path: &str, out: &mut S
     out.push_str(&deferred);
 }
 
+/// bare keys that are number tokens for Rust's lexer (all of them compile inside `toml!`); the
+/// last two are spelled the same by both languages and serve as controls
+const NUMBER_LIKE_KEYS: &[&str] = &["007", "0x10", "1_000", "1979-05-27", "b-01", "1.5", "0o17", "00", "10", "0"];
+
 /// One document, one statement per line.
 pub fn gen_macro_doc(rng: &mut Rng) -> String {
+    if rng.chance(1, 24) {
+        // a few pairs under bare keys that look like numbers or dates (finding D30)
+        let mut keys: Vec<&str> = NUMBER_LIKE_KEYS.to_vec();
+        rng.shuffle(&mut keys);
+        let n = 1 + rng.below(3);
+        let mut out = String::new();
+        if rng.coin() {
+            out.push_str("[t]\n");
+        }
+        for (i, k) in keys.into_iter().take(n).enumerate() {
+            out.push_str(&format!("{k} = {}\n", i + 1));
+        }
+        return out;
+    }
     let mut budget = *rng.pick(&[3, 6, 10, 16]);
     let root = plan(rng, 0, &mut budget);
     let mut out = String::new();
